@@ -454,7 +454,7 @@ def ref_trail(root, segs, log):
             if ent is not None and d is not None and getattr(d, '__func__', d) is ent['fn'] and \
                     getattr(d, '__self__', None) is ent['self'] and ent['before'] == rest:
                 k += 1
-                if ent['raised']:
+                if ent['raised'] or ent['after'] is None:
                     return chain, wf, 'raised'
                 after = ent['after']
                 if len(after) > len(rest):
@@ -819,8 +819,11 @@ def case_messages(c, want_purity=True):
     `history` (requests served by the same application before it): then the request is also asked of a freshly
     built tree and the two answers are compared (the choice is a function of (tree, path, method))."""
     hist = [tuple(h) for h in c.get('history') or []]
-    built, view, obs, lines, again = run_tree(c['tree'], c['kind'], hist + [_case_req(c)],
-                                              want_purity and not hist, not c.get('plain'), c.get('front'))
+    try:
+        built, view, obs, lines, again = run_tree(c['tree'], c['kind'], hist + [_case_req(c)],
+                                                  want_purity and not hist, not c.get('plain'), c.get('front'))
+    except BuildRaised as e:
+        return [('the object tree could not be set up: %s' % e, 'tree_setup_raised')]
     msgs = oracle(built, c, obs[-1]) + expose_oracle(built)
     if again is not None and strip_obs(again[-1]) != strip_obs(obs[-1]):
         msgs.append(('the same request answered differently in a different history: %s vs %s'
@@ -857,7 +860,7 @@ def shrink_case(case, sig, history=None):
         case = dict(case, history=[list(h) for h in history])
         if not fails(case):
             return case, None
-    small = shrink_generic(case, variants, fails)
+    small = shrink_generic(case, variants, fails, budget=5 if sig == 'no_answer' else 500)
     try:
         g = dict(small, tree=gc_tree(small['tree']))
         # renumbering changes probe ids; keep it only if the failure is still there
@@ -890,6 +893,12 @@ def report_failure(ctx, case, what, sig, shrinker, history=None):
 
 
 # ----------------------------------------------------------------------------------------------
+class BuildRaised(Exception):
+    """Decorating the generated classes (`cherrypy.expose`, `cherrypy.popargs`, `cherrypy.config`) or creating the
+    Application / dispatcher wrappers raised: the documented forms must be accepted (reported as an oracle failure
+    with the tree as the input, never as a harness error)."""
+
+
 def _rq(r):
     """(path, method[, query[, body[, headers]]]) -> (path, method, query, body, headers)"""
     r = tuple(r)
@@ -923,19 +932,34 @@ def has_mut(spec):
 def run_tree(spec, kind, reqs, purity=False, instrument=True, front=None):
     """Build the tree, run the requests; returns (built, view, [obs], [line]).
     `spec['sections']` (optional): application config sections {path: {key: value}}."""
-    built = T.Built(spec, instrument=instrument)
+    try:
+        built = T.Built(spec, instrument=instrument)
+    except common.HarnessError:
+        raise
+    except Exception as e:
+        # cherrypy.expose / cherrypy.popargs / cherrypy.config raised while the tree was being decorated
+        raise BuildRaised('%s: %s' % (type(e).__name__, e))
     reqs = [_rq(r) for r in reqs]
     paths = [r[0] for r in reqs]
     sections = spec.get('sections') or {}
-    runner = T.Runner(built, kind, sections=sections, front=front)
+    try:
+        runner = T.Runner(built, kind, sections=sections, front=front)
+    except common.HarnessError:
+        raise
+    except Exception as e:
+        raise BuildRaised('mounting the application: %s: %s' % (type(e).__name__, e))
     secs = ';'.join('%s|%s' % (T.enc_text(k), T.enc_conf(v)) for k, v in sections.items()) or '-'
 
     def one(r):
         p, m, q, b, h = r
         return runner.get(p, m, query=q, req_body=b.encode('utf-8') if b else None, headers=h)
-    obs = [one(r) for r in reqs]
+    obs = []
+    for r in reqs:
+        obs.append(one(r))
+        if obs[-1].get('hang'):
+            break          # one request that does not terminate is enough (each costs the guard time)
     again = None
-    if purity:
+    if purity and not any(o.get('hang') for o in obs):
         again = [one(r) for r in reversed(reqs)][::-1]
     seen = [o['path_info'] or p for o, p in zip(obs, paths)]
     maxsegs = max([len([s for s in p.split('/') if s]) for p in seen] + [0])
@@ -985,7 +1009,9 @@ def disp_table(view, log):
         did = view.ids.get(key)
         if did is None:
             continue
-        if e['raised']:
+        if e['before'] is None:
+            continue
+        if e['raised'] or e['after'] is None:
             out.append('%d|%s|R|-|-' % (did, _enc_names(e['before'])))
             continue
         rid = 'N' if e['ret'] is None else view.ids.get(T.View.key(e['ret']))
@@ -1016,11 +1042,22 @@ def check_batch(ctx, batch, compare_model=True):
     pending = []
     fronts = []
     for item in batch:
+        if getattr(ctx, '_hangs', 0) >= 2:
+            # every further request would cost the guard time again: the hang is reported, stop here
+            ctx.note('stopped early: requests do not terminate')
+            break
         spec, kind, reqs, purity = item[:4]
         instrument = item[4] if len(item) > 4 else True
         front = item[5] if len(item) > 5 else None
         reqs = [_rq(r) for r in reqs]
-        built, view, obs, lines, again = run_tree(spec, kind, reqs, purity, instrument, front)
+        try:
+            built, view, obs, lines, again = run_tree(spec, kind, reqs, purity, instrument, front)
+        except BuildRaised as e:
+            case = _mk_case(spec, kind, reqs[0], instrument, front)
+            ctx.case(case, key=json.dumps(case, sort_keys=True))
+            ctx.oracle_fail(case, 'the object tree could not be set up with cherrypy.expose / popargs / config / '
+                            'Application: %s' % e, 'tree_setup_raised')
+            continue
         ndisp = sum(1 for nd in spec['nodes'] if nd.get('disp') is not None)
         mut = has_mut(spec)
         for what, sig in expose_oracle(built):
@@ -1069,6 +1106,8 @@ def check_batch(ctx, batch, compare_model=True):
                     ctx.count('ran_after_dispatcher:%s' % ('default' if o['ran'][0][0].endswith('.default') else
                                                            'index' if o['ran'][0][0].endswith('.index') else 'other')
                               + ('+args' if o['ran'][0][1] else ''))
+            if o.get('hang'):
+                ctx._hangs = getattr(ctx, '_hangs', 0) + 1
             for what, sig in oracle(built, case, o):
                 report_failure(ctx, case, what, sig, shrink_case, reqs[:k])
             if ndisp and instrument:
@@ -1428,10 +1467,15 @@ def run_mounts(case):
         default.exposed = True
         return type('Mount%d' % i, (object,), {'default': default, 'index': default})()
     for i, k in enumerate(case['mounts']):
-        app = tree.mount(make_root(i), k, {'/': {'tools.trailing_slash.on': False}})
-        app.log.screen = False
-        app.log.error_file = ''
-        app.log.access_file = ''
+        try:
+            app = tree.mount(make_root(i), k, {'/': {'tools.trailing_slash.on': False}})
+            app.log.screen = False
+            app.log.error_file = ''
+            app.log.access_file = ''
+        except Exception as e:
+            return list(getattr(tree, 'apps', {}).keys()), [{'sn0': s0, 'pi': pi, 'status': 'mount raised %s' % type(e).__name__,
+                                                             'ran': [], 'script_name_of_joined': 'mount raised'}
+                                                            for s0, pi in case['reqs']]
     keys = list(tree.apps.keys())
     obs = []
     for sn0, pi in case['reqs']:
@@ -1449,13 +1493,16 @@ def run_mounts(case):
             got['status'] = status
         o = {'sn0': sn0, 'pi': pi}
         try:
-            res = tree(environ, start_response)
-            try:
-                b''.join(res)
-            finally:
-                if hasattr(res, 'close'):
-                    res.close()
+            with T.cpu_guard(4.0):
+                res = tree(environ, start_response)
+                try:
+                    b''.join(res)
+                finally:
+                    if hasattr(res, 'close'):
+                        res.close()
             o['status'] = int(got['status'].split()[0])
+        except T.NoAnswer:
+            o['status'] = 'no answer'
         except Exception as e:          # an observation, not a harness error
             o['status'] = 'raised ' + type(e).__name__
         o['ran'] = [list(j) for j in journal]
@@ -1466,7 +1513,10 @@ def run_mounts(case):
                 joined = joined.replace('//', '/')
             joined = joined or '/'
             o['joined'] = joined
-            o['script_name_of_joined'] = tree.script_name(joined)
+            with T.cpu_guard(4.0):
+                o['script_name_of_joined'] = tree.script_name(joined)
+        except T.NoAnswer:
+            o['script_name_of_joined'] = 'no answer'
         except Exception as e:
             o['script_name_of_joined'] = 'raised ' + type(e).__name__
         obs.append(o)
@@ -1476,6 +1526,9 @@ def run_mounts(case):
 def check_mounts(ctx, cases):
     lines, meta = [], []
     for case in cases:
+        if getattr(ctx, '_hangs', 0) >= 2:
+            ctx.note('stopped early: mount lookups do not terminate')
+            break
         keys, obs = run_mounts(case)
         apps = '=' + ','.join(T.enc_text(k) for k in keys)
         for (sn0, pi), o in zip(case['reqs'], obs):
@@ -1486,6 +1539,10 @@ def check_mounts(ctx, cases):
             # exposed-only holds trivially here (every probe is exposed); at most one handler per request
             if len(o['ran']) > 1:
                 ctx.oracle_fail(single, 'more than one handler ran: %s' % o['ran'], 'multiple_handlers')
+            if o['status'] == 'no answer' or o.get('script_name_of_joined') == 'no answer':
+                ctx._hangs = getattr(ctx, '_hangs', 0) + 1
+                ctx.oracle_fail(single, 'the mount lookup for SCRIPT_NAME=%r PATH_INFO=%r did not produce an answer'
+                                % (sn0, pi), 'no_answer')
             lines.append(' '.join(['S', apps, T.enc_text(sn0), T.enc_text(pi)]))
             meta.append((single, o, 'S'))
             lines.append(' '.join(['T', apps, T.enc_text(o.get('joined', '/'))]))
@@ -1859,8 +1916,13 @@ def replay(ctx, case):
         check_mounts(ctx, [case])
         return
     spec, kind = case['tree'], case['kind']
-    built, view, obs, lines, again = run_tree(spec, kind, [_case_req(case)], True, not case.get('plain'),
-                                              case.get('front'))
+    try:
+        built, view, obs, lines, again = run_tree(spec, kind, [_case_req(case)], True, not case.get('plain'),
+                                                  case.get('front'))
+    except BuildRaised as e:
+        print('setting up the tree raised:', e)
+        check_case(ctx, case)
+        return
     print('request:', case['method'], case['path'], '(dispatcher %s)' % kind,
           'query=%r body=%r' % (case.get('query'), case.get('body')))
     print('impl   :', json.dumps(strip_obs(obs[0])))
